@@ -1,5 +1,6 @@
 import ChythonModel.Proofs.C13Step
 import ChythonModel.Proofs.C13Graph
+import ChythonModel.Proofs.C13WFStep
 /-!
 # C13 — edits keep derived views coherent; transactions atomic; copies independent
 
@@ -308,5 +309,70 @@ example : AdjSym demoMol.adj ∧ (gAddBond demoMol 1 3 1).toOption.isSome ∧ (g
   simp only [demoMol, List.mem_cons, Prod.mk.injEq, List.mem_nil_iff, or_false] at ha
   rcases ha with ⟨rfl, rfl⟩ | ⟨rfl, rfl⟩ | ⟨rfl, rfl⟩ <;> simp at hb <;>
     (try rcases hb with ⟨rfl, rfl⟩ | ⟨rfl, rfl⟩) <;> (try obtain ⟨rfl, rfl⟩ := hb) <;> simp_all [demoMol]
+
+/-! ## the stored graph is well-formed in every reachable state -/
+
+/-- today's regenerated table restores `_atoms` and `_bonds` together in every method `step` runs -/
+theorem graph_ok_current : GraphOK current = true := by decide +kernel
+
+/-- **wf_step**: every public operation of the model's alphabet (edits, transactions incl. abort/restore, remap, union,
+substructure, copy, reads, attribute writes) — whatever its arguments, `obs`, and outcome (a Python exception leaves the
+partially updated object) — maps a world in which every live graph and every transaction snapshot is well-formed (`MolWF`:
+atom keys unique, `_bonds` keyed by exactly the atoms in the same order, neighbour keys unique, no self-loops, symmetric
+with the same bond on both sides) to such a world. -/
+theorem wf_step {T : Tables} (hG : GraphOK T = true) (w : World) (op : Op) (obs : List String) (hw : WorldWF w) :
+    WorldWF (step T w op obs).w :=
+  step_wf hG op obs hw
+
+/-- **wf_reachable**: induction over arbitrary histories (no admissibility needed) from any well-formed world. -/
+theorem wf_reachable {T : Tables} (hG : GraphOK T = true) :
+    ∀ (h : List (Op × List String)) (w : World), WorldWF w → WorldWF (runHist T w h) := by
+  intro h
+  induction h with
+  | nil => intro w hw; exact hw
+  | cons x rest ih =>
+    intro w hw
+    obtain ⟨op, obs⟩ := x
+    simp only [runHist]
+    exact ih _ (wf_step hG w op obs hw)
+
+/-- **wf_every_reachable_state** (today's code): start from any molecule accepted by the executable check `Mol.WF`
+(what a parser / the constructor API delivers), run any history; then the executable check accepts the graph of every
+object — the seed, copies, substructures, unions — and of every open transaction's snapshot. -/
+theorem wf_every_reachable_state (m : Mol) (hm : m.WF = true) (h : List (Op × List String)) :
+    ∀ o ∈ (runHist current (freshWorld m) h).objs,
+      o.mol.WF = true ∧ ∀ bk, o.backup = some (some bk) → bk.mol.WF = true := by
+  have hw0 : WorldWF (freshWorld m) := by
+    intro o ho
+    simp only [freshWorld, List.mem_singleton] at ho
+    subst ho
+    exact ⟨MolWF.ofBool hm, fun bk hbk => by simp [freshObj] at hbk⟩
+  intro o ho
+  have := wf_reachable graph_ok_current h _ hw0 o ho
+  exact ⟨this.1.toBool, fun bk hbk => (this.2 bk hbk).toBool⟩
+
+/-- what the executable check means: key uniqueness, no self-loops, symmetric adjacency sharing the bond -/
+theorem wf_meaning (m : Mol) (h : m.WF = true) :
+    m.ids.Nodup ∧ m.adj.map (·.1) = m.ids ∧
+    (∀ a la, (a, la) ∈ m.adj → (la.map (·.1)).Nodup ∧ ∀ b bd, (b, bd) ∈ la → b ≠ a ∧ m.hasAtom b = true ∧ m.bond? b a = some bd) := by
+  have hw := MolWF.ofBool h
+  refine ⟨hw.nodup, hw.keys, fun a la ha => ⟨hw.nbrNodup a la ha, fun b bd hb => ⟨hw.noLoop a la b bd ha hb, ?_, ?_⟩⟩⟩
+  · exact hasAtom_iff.mpr (hw.nbr_mem ha hb)
+  · obtain ⟨lb, hlb, hback⟩ := hw.sym a la b bd ha hb
+    simp only [Mol.bond?, hw.nbrs_eq hlb]
+    exact lookup_of_mem (hw.nbrNodup b lb hlb) hback
+
+/-- a history through every graph-changing operation: ring closure, failed and aborted transaction, renumbering (swap),
+substructure, in-place union with renumbering, union into a new object, copy, deletion -/
+def wfHist : List (Op × List String) :=
+  [(.addBond 0 1 3 1 false, []), (.enter 0, []), (.delAtom 0 2 false, []), (.addAtom 0 7 (some 9) false, []), (.exitExc 0, []),
+   (.remap 0 [(1, 2), (2, 1)], []), (.substructure 0 [1, 3] true, []), (.union 0 1 true false, []), (.union 0 1 true true, []),
+   (.copy 2 false false, []), (.enter 3, []), (.delBond 3 1 2 false, []), (.addBond 3 1 5 8 false, [])]
+
+/-- the hypotheses are satisfiable and the reachable state is not trivial: four objects, one of them inside a transaction -/
+example : demoMol.WF = true ∧
+    ((runHist current (freshWorld demoMol) wfHist).objs.map fun o => (o.mol.ids, o.mol.bondsCount, o.backup.isSome && o.backup != some none)) =
+      [([2, 1, 3, 4, 5], 4, false), ([1, 3], 1, false), ([2, 1, 3, 4, 5, 6, 7], 5, false), ([2, 1, 3, 4, 5, 6, 7], 5, true)] := by
+  decide +kernel
 
 end ChythonModel.Props.C13
